@@ -745,7 +745,8 @@ def cwrap_bits(p):
                 return [(st, NORMAL, (mk(q), mk(q)))]
             return [(st, NORMAL, mk(q))]
         return stub
-    target = getattr(libmpc, fn)
+    from mpmath.libmp import libhyper
+    target = getattr(libmpc, fn, None) or getattr(libhyper, fn)
     for name in _STUB_NAMES:
         for mod in (libelefun, libmpf, libmpc):
             f = getattr(mod, name, None)
@@ -753,7 +754,14 @@ def cwrap_bits(p):
                 ob.eng.models[f] = make_stub(name)
                 break
     z = (ob.mpf('re', 4, exp=p.get('rexp', -3)), ob.mpf('im', 3, exp=p.get('iexp', -2)))
-    outs = ob.run(target, [z, prec, rnd])
+    if p.get('two'):
+        # two-argument functions with a convergence loop (mpc_agm): the loop is cut after its first iteration by letting the
+        # convergence test (mpf_lt) succeed -- what is judged is the value handed back on exit
+        w = (ob.mpf('re2', 3, exp=-1), ob.mpf('im2', 4, exp=-3))
+        ob.eng.models[libmpf.mpf_lt] = lambda eng, st, a, k, fr: [(st, NORMAL, True)]
+        outs = ob.run(target, [z, w, prec, rnd])
+    else:
+        outs = ob.run(target, [z, prec, rnd])
 
     def okc(c):
         return z3.Or(is_tuple(c, FZERO), canonical(c, prec))
@@ -772,9 +780,11 @@ def cwrap_bits_concrete(p, m):
     fn, prec, rnd = p['fn'], p['prec'], p['rnd']
     zs = [((m.get('re_sign', 0), m.get('re_man', 9), p.get('rexp', -3), 4), (m.get('im_sign', 0), m.get('im_man', 5), p.get('iexp', -2), 3)),
           ((0, 9, -3, 4), (0, 5, -2, 3)), ((1, 13, -3, 4), (0, 7, -2, 3)), ((0, 11, 1, 4), (1, 5, 0, 3))]
+    from mpmath.libmp import libhyper
+    f_ = getattr(libmpc, fn, None) or getattr(libhyper, fn)
     for z in zs:
         try:
-            r = getattr(libmpc, fn)(z, prec, rnd)
+            r = f_(z, ((0, 5, -1, 3), (0, 9, -3, 4)), prec, rnd) if p.get('two') else f_(z, prec, rnd)
         except Exception:
             continue
         parts = list(r) if isinstance(r[0], tuple) else [r]
